@@ -624,6 +624,12 @@ C20_SPECIAL = [
     ("clone_next_to_bounded_copy_const", "Clone, Copy(bound([u8; N]: Small))", "pub struct X<const N: usize>(pub [u8; N]);\npub trait Small {}\nimpl Small for [u8; 1] {}"),
     ("clone_next_to_bounded_copy_lifetime", "Copy(bound(&'a str: Plain)), Clone", "pub enum X<'a> { A(&'a str), B }\npub trait Plain {}\nimpl Plain for &'static str {}"),
     ("clone_next_to_bounded_copy_type", "Clone, Copy(bound(T: Small + ::core::marker::Copy))", "pub struct X<T>(pub T, pub u8);\npub trait Small {}\nimpl Small for u8 {}"),
+    # the bound a key expression needs is supplied by a field-level #[derive_ex(..)] ON THE KEYED FIELD (priorities 8 and 9): the field's own
+    # type is not bounded (it is not compared by its own impl), the explicit bounds still are
+    ("key_needs_field_level_bound", "PartialEq, Eq, Hash", "pub struct X<T> { pub id: u8, #[eq(key = $.0)] #[derive_ex(PartialEq(bound(T)), Eq(bound(T)), Hash(bound(T)))] pub p: P<T> }\npub struct P<T>(pub T, pub fn() -> T);"),
+    ("key_needs_field_level_common_bound_enum", "PartialOrd, PartialEq", "pub enum X<T> { A, B(#[partial_ord(key = $.0)] #[derive_ex(PartialOrd, PartialEq, bound(T))] P<T>) }\npub struct P<T>(pub T, pub fn() -> T);"),
+    ("hash_key_needs_field_level_bound", "Hash", "pub struct X<T, U>(pub U, #[hash(key = $.0)] #[derive_ex(Hash(bound(T)))] pub P<T>);\npub struct P<T>(pub T, pub fn() -> T);"),
+    ("ord_key_needs_field_level_bound", "Ord, PartialOrd, Eq, PartialEq", "pub struct X<T> { #[ord(key = &$.0)] #[derive_ex(Ord, PartialOrd, Eq, PartialEq, bound(T))] pub p: P<T>, pub z: u8 }\npub struct P<T>(pub T, pub fn() -> T);"),
     # literals of other kinds as default values; const parameters in EXPRESSION position of a field type (array length, braced const argument)
     ("default_bytes_slice", "Default", "pub struct X { #[default(b\"ab\")] pub a: &'static [u8], #[default(br\"c\")] pub b: &'static [u8], #[default(*b\"xy\")] pub c: [u8; 2], #[default(1.5e1)] pub d: f64, #[default(7u8)] pub e: u8, #[default('x')] pub f: char }"),
     ("const_in_expr_position", "Default, Clone, Debug, PartialEq", "pub struct X<const N: usize> { pub a: [u8; N], pub b: Wn<{ N }>, pub c: Wn<N> }\n"
